@@ -153,7 +153,7 @@ func genCase(t *rapid.T) hcase {
 var rec = ev.New("c19/pll", "rapid state histories: 1..60 updates (dt from {0, 1 us, 0.4 s, 1 s, 1 s+1 ns, 2 s, 2 s+1 ns, 6 s, 6 s+1 ns, 64 s, 301 s, 1e5 s} and ranges; offset from an int64 mixture dense at +-1 ms; weight from {0,1,3,nextafter(3),49.9,50,149.9,150,1e6,+Inf} and ranges), external epoch changes at any point, clock whose Step does / does not bump the epoch; clock readings non-decreasing. The real Pll drives a recording fake clock. Oracle (from the statement): a step only > 2 s after the first update of the clock epoch, weight > 3, |offset| > 1 ms, by exactly the offset, at most one per epoch and never after slewing began in that epoch; every adjustment has duration = ceil(elapsed s) > 0, |slew| <= 500 ppm x duration, finite frequency, and none before the step phase of a (re)started start-up sequence could have passed. One evaluation = one history. Non-trivial: history that reaches tracking with a clamped slew, or with an epoch change while tracking; distinct by history hash")
 
 func TestPropPLL(t *testing.T) {
-	vt.Check(t, 20000, 200000, func(t *rapid.T) {
+	vt.Check(t, 150000, 600000, func(t *rapid.T) {
 		c := genCase(t)
 		st := checkPLL(t, c)
 		b, _ := json.Marshal(struct {
